@@ -48,12 +48,15 @@ tpc_on_start(tpt_p tpt) {
 	}
 }
 
+static void (*tpc_stop_extra)(tpt_p) = NULL;	/* scenario hook: runs inside the stop hook (the thread is out of its loop, not yet stopped) */
 static void
 tpc_on_stop(tpt_p tpt) {
 	int n = (int)tpt_get_num(tpt);
 	tpc_add(E_STOP, n, 0, 0, 0);
 	if (n >= 0 && n < 40)
 		tpc_stops[n] ++;
+	if (NULL != tpc_stop_extra)
+		tpc_stop_extra(tpt);
 }
 
 static int
